@@ -16,7 +16,7 @@ LEVEL = "exploration"
 DESIGN_REF = "DESIGN.md §3 C02"
 RULE = (
     "Histories of Universe.add_vertex/remove_vertex, Vertex.add_to_universe/remove_from_universe, "
-    "Vertex(universes=[.. with repeats]) and Universe(vertices=[.. with repeats]) over 1-3 universes and 1-3 plain "
+    "Vertex(universes=[.. with repeats]) and Universe(vertices=[.. with repeats]) (lists, tuples, one-shot iterators), and bulk addition of 7-40 fresh members at once (membership-index size thresholds) over 1-3 universes and 1-3 plain "
     "vertices where universes are themselves candidates for membership (nesting, self-membership).  "
     "Bounded-exhaustive for every history up to the stated length over 2 universes + 2 vertices (all four calls, "
     "every universe x every member candidate incl. the universes themselves), Hypothesis beyond.  After every "
@@ -38,7 +38,7 @@ LEVEL_TEXT = (
 LEVEL_NOTE = "Trusts the dict/list membership model and the snapshot reader (public accessors only). Search, not proof."
 TECHNIQUE = "model-based stateful PBT: exhaustive small-scope histories + Hypothesis op-lists vs. an insertion-ordered membership model"
 
-OPS_W = ["ua"] * 3 + ["va"] * 3 + ["ur"] * 2 + ["vr"] * 2 + ["newv_u", "newu"]
+OPS_W = ["ua"] * 3 + ["va"] * 3 + ["ur"] * 2 + ["vr"] * 2 + ["newv_u", "newu"] + ["bulk_u"]
 
 
 def budget(tier):
@@ -82,7 +82,7 @@ def _invariant(w, where):
         mem = U.vertices
         ids = [id(x) for x in mem]
         require(len(set(ids)) == len(ids), "duplicate-member", lambda: f"{where}: universe {u} lists a member twice: {[vi.get(i, '?') for i in ids]}")
-        for k, v in enumerate(w.vs):
+        for k, v in enumerate(w.vs + w.bulk_members):
             a = id(v) in ids
             b = any(x is U for x in v.universes)
             if a != b:
@@ -131,6 +131,8 @@ def check_case(case):
         if name in ("ur", "vr"):
             has_remove = True
             removed_pairs.add((r[1], r[2]))
+        if name == "bulk_u":
+            classes.add("bulk-members(>=7)")
         if name == "newv_u" and len(set(r[1])) < len(r[1]):
             classes.add("constructor-list-with-repeats")
         if name == "newu" and len(set(r[1])) < len(r[1]):
